@@ -196,7 +196,7 @@ func c12Uncovered(ts []osTemplate) []string {
 	return missing
 }
 
-var c12Contexts = []string{"top", "spawn", "go-chan", "clone-call", "module-body", "module-func", "callback", "defer"}
+var c12Contexts = []string{"top", "spawn", "go-chan", "clone-call", "module-body", "module-func", "callback", "defer", "vm-reuse", "vm-reuse-spawn", "vm-reuse-call"}
 var c12Routes = []string{"WithOS", "ctx"}
 var c12Faults = []string{"none", "fail-first", "fail-all"}
 
@@ -208,7 +208,7 @@ func init() {
 		Name:     "os-mediation",
 		Run:      runC12,
 		Level:    "fault_enumeration",
-		Rule: "one run = one (OS-touching callable template) x (execution context: top level, spawned goroutine, go statement, vm.Clone+Call from a second host task, imported module body, imported module function, callback inside a builtin, deferred call) " +
+		Rule: "one run = one (OS-touching callable template) x (execution context: top level, spawned goroutine, go statement, vm.Clone+Call from a second host task, imported module body, imported module function, callback inside a builtin, deferred call, and a VM reused through risor.WithVM: later evaluation, goroutine spawned in a later evaluation, vm.Call after a later evaluation) " +
 			"x (supply route: risor.WithOS / OS in the context) x (fault: none, first failable OS call fails, every failable OS call fails) against a simulated OS whose contents are disjoint from the real machine's; " +
 			"the product is enumerated exhaustively by run index in both tiers (the thorough tier repeats it 8 times under other schedules, errno values and torn writes); spawned/cloned contexts run under the seeded scheduler; " +
 			"non-trivial = the probe reached the simulated OS at least once or was expected not to; distinct = distinct (template, context, route, fault) tuples",
@@ -265,6 +265,12 @@ func c12Source(t osTemplate, context string) (main string, modules map[string]st
 		return "import pm\npm.body_result\n", map[string]string{"pm.risor": probe + "body_result := try(probe, " + handler + ")\n"}
 	case "module-func":
 		return "import pm\ntry(pm.probe, " + handler + ")\n", map[string]string{"pm.risor": probe}
+	case "vm-reuse":
+		return probe + "try(probe, " + handler + ")\n", nil
+	case "vm-reuse-spawn":
+		return probe + "t := spawn(func() { return try(probe, " + handler + ") })\nt.wait()\n", nil
+	case "vm-reuse-call":
+		return probe + "func entry() { return try(probe, " + handler + ") }\n\"defined\"\n", nil
 	case "callback":
 		return probe + "[1].map(func(x) { return try(probe, " + handler + ") })[0]\n", nil
 	case "defer":
@@ -412,6 +418,30 @@ func runC12(rc *fw.RunCtx) {
 			// a second host task calls entry() on a clone
 			s.Go("host", "clone-caller", caller)
 		})
+	} else if strings.HasPrefix(ctxName, "vm-reuse") {
+		// one VM reused for several evaluations (risor.WithVM): the probe runs in
+		// the second or third one
+		machine, err := vm.NewEmpty()
+		if err != nil {
+			panic("harness: " + err.Error())
+		}
+		ropts := append(append([]risor.Option{}, opts...), risor.WithVM(machine))
+		s.Go("main", "main", func() {
+			guard(out, func() (object.Object, error) {
+				if _, err := risor.Eval(ctx, "1 + 1", ropts...); err != nil {
+					return nil, fmt.Errorf("harness: warm-up evaluation failed: %w", err)
+				}
+				v, err := risor.Eval(ctx, src, ropts...)
+				if err != nil || ctxName != "vm-reuse-call" {
+					return v, err
+				}
+				fnObj, err := machine.Get("entry")
+				if err != nil {
+					return nil, err
+				}
+				return machine.Call(ctx, fnObj.(*object.Function), nil)
+			})
+		})
 	} else {
 		s.Go("main", "main", func() {
 			guard(out, func() (object.Object, error) { return risor.Eval(ctx, src, opts...) })
@@ -470,7 +500,7 @@ func runC12(rc *fw.RunCtx) {
 	} else if str, ok := out.Result.(*object.String); ok {
 		res = str.Value()
 	} else if out.Result != nil {
-		res = out.Result.Inspect()
+		res = safeInspect(out.Result)
 	}
 	methods := sos.Methods()
 	if t.Pure {
